@@ -678,7 +678,23 @@ class Controller:
             )
 
         if not advertiser:
-            # This is not send to us.
+            if packet.advertiser_address in (
+                self.random_address,
+                self.public_address,
+                *(s.address for s in self.advertising_sets.values()),
+            ):
+                # This was sent to us, but too late: another central got there first
+                # (or advertising has stopped). The initiator considers the connection
+                # created as soon as it has sent this PDU: tell it that it was not.
+                if self.link:
+                    self.link.send_ll_control_pdu(
+                        packet.advertiser_address,
+                        packet.initiator_address,
+                        ll.TerminateInd(
+                            hci.HCI_ErrorCode.CONNECTION_FAILED_TO_BE_ESTABLISHED_ERROR
+                        ),
+                    )
+            # else: this is not sent to us.
             return
 
         # Allocate (or reuse) a connection handle
